@@ -256,5 +256,10 @@ Fixpoint replay (w : world) (g : gsys) (tr : list tstep) (i : N) (acc : corr) : 
 
 Definition corr0 := {| k_out := 0; k_reply := 0; k_steps := 0; k_final := gsys0 |}.
 Definition ginit (w : world) : gsys :=
-  {| comps := map (fun x => (fst x, {| nd := snd x; pl := plugin0; calls := []; now := 0; height := 0 |})) (w_init w); gnow := 0; gheight := 0 |}.
+  (* attempt ids are fresh (nanosecond timestamps in the code; ordinals by first appearance in the traces): a stored history that
+     already names attempt [a] makes the next one [a + 1] *)
+  {| comps := map (fun x => (fst x, {| nd := snd x;
+                                       pl := {| entry_ := None; lcs := [];
+                                                next_att := match ds (snd x) with Some (DPending a _, _) => a + 1 | _ => 0 end |};
+                                       calls := []; now := 0; height := 0 |})) (w_init w); gnow := 0; gheight := 0 |}.
 Definition run_corr (w : world) (tr : list tstep) : corr := replay w (ginit w) tr 0 corr0.
